@@ -105,7 +105,8 @@ pub fn norm_tokens<T: ToTokens>(t: &T) -> String {
 }
 
 impl Registry {
-    pub fn load(root: &std::path::Path) -> Registry {
+    /// `features`: when given, `#[cfg]` / `cfg!` are resolved for exactly this cargo feature set before anything is looked up
+    pub fn load(root: &std::path::Path, features: Option<&[String]>) -> Registry {
         let mut files = BTreeMap::new();
         let mut file_errors = BTreeMap::new();
         for f in config::FILES {
@@ -115,7 +116,11 @@ impl Registry {
                     file_errors.insert(f.to_string(), format!("cannot read {}: {}", f, e));
                 }
                 Ok(text) => match syn::parse_file(&text) {
-                    Ok(ast) => {
+                    Ok(mut ast) => {
+                        if let Some(fs) = features {
+                            use syn::visit_mut::VisitMut;
+                            crate::cfgres::CfgRes { features: fs }.visit_file_mut(&mut ast);
+                        }
                         files.insert(f.to_string(), ast);
                     }
                     Err(e) => {
